@@ -152,6 +152,21 @@ def run(tier, seed):
                 rec.ok(("encoding-pointer", enc))
             else:
                 rec.fail(f"encoding-pointer:{enc}", f"json pointer -p /a/0/b -f <document encoded as {enc}>: exit {code}, stdout {out[:60]!r}, stderr {err[:200]!r}", "sys.exit(2)")
+        # a document whose top-level value is a string that itself looks like JSON: decoded once, not twice
+        strdoc = write("strdoc.json", json.dumps("[1, 2, 3]"))
+        for q in ("$", "$[0]"):
+            code, out, err, tb = run_main(["path", "-q", q, "-f", strdoc])
+            with open(strdoc, "rb") as fd:
+                want = jsonpath.findall(q, fd)
+            if code == 0 and out == json.dumps(want) and not tb:
+                rec.ok(("string-document", q))
+            else:
+                rec.fail(f"string-document:{q}", f"json path -q {q!r} -f <file containing the JSON string \"[1, 2, 3]\">: exit {code}, stdout {out[:60]!r}; jsonpath.findall on the same file returns {want!r}", "sys.exit(2)")
+        code, out, err, tb = run_main(["pointer", "-p", "", "-f", strdoc])
+        if code == 0 and out == json.dumps("[1, 2, 3]") and not tb:
+            rec.ok(("string-document", "pointer"))
+        else:
+            rec.fail("string-document:pointer", f"json pointer -p '' -f <file containing the JSON string \"[1, 2, 3]\">: exit {code}, stdout {out[:60]!r}, stderr {err[:200]!r}; the library resolves the empty pointer to the string itself", "sys.exit(2)")
         badpatch = write("badpatch.json", "[{")
         case("patch", [badpatch], lambda: (_ for _ in ()).throw(ValueError()), None, {"global": [], "sub": []}, good, False, False, "patch:malformed")
         # a few real subprocess runs
